@@ -72,6 +72,9 @@ func genC17(t *rapid.T) c17Case {
 			size = int64(rapid.IntRange(20, 800).Draw(t, l+"-small")) * int64(s) // below the window
 		case 3:
 			size = 0x35000000 + int64(rapid.IntRange(1, 1<<20).Draw(t, l+"-over"))
+		case 4:
+			// beyond 4 GiB: byte offsets of sectors no longer fit into 32 bits
+			size = 1<<32 + int64(rapid.IntRange(1, 300).Draw(t, l+"-gig"))*2352*1000
 		default:
 			size = int64(rapid.IntRange(0x200000/2048+1, 200000).Draw(t, l+"-sectors")) * int64(s)
 			if size > 0x35000000 {
@@ -107,7 +110,15 @@ func genC17(t *rapid.T) c17Case {
 			im := c.Images[cur]
 			total := int((im.Size - 24) / int64(im.Sector))
 			var start, count int
-			switch rapid.IntRange(0, 9).Draw(t, l+"-geom") {
+			switch rapid.IntRange(0, 11).Draw(t, l+"-geom") {
+			case 10, 11:
+				// start sectors whose byte offset needs more than 32 bits: inside a > 4 GiB image real data, otherwise far behind EOF
+				wrap := int((1<<32)/int64(im.Sector)) + 1
+				start = wrap + rapid.SampledFrom([]int{-3, -1, 0, 1, 2, 1000, 250000}).Draw(t, l+"-hi")
+				count = rapid.IntRange(1, 4).Draw(t, l+"-c")
+				if rapid.IntRange(0, 5).Draw(t, l+"-max") == 0 {
+					start = rapid.SampledFrom([]int{0x7fffffff, 0xfffffffe, 0xffffffff}).Draw(t, l+"-smax")
+				}
 			case 0:
 				start, count = rapid.IntRange(0, total).Draw(t, l+"-s"), 0
 			case 1:
@@ -145,6 +156,10 @@ func runC17(c c17Case, st *hx.Stats) error {
 		}
 		if r.Count == 0 {
 			st.Label("count 0")
+		}
+		if int64(r.Start)*int64(im.Sector) >= 1<<32 {
+			st.Label("start sector beyond the 32-bit byte offset")
+			st.NT(fmt.Sprintf("hi|%d|%d|%d|%d", im.Sector, im.Size, r.Start, r.Count))
 		}
 		if int64(24)+int64(r.Start+r.Count)*int64(im.Sector) > im.Size {
 			st.Label("range crosses EOF")
